@@ -670,6 +670,30 @@ def r9(F, R):
     R.floor("C15-R9", 8)
 
 
+
+def r11(F, R):
+    R.rule("C15-R11", "the shape a reader sees is changed by finalisation only: `set_shape` on a stored array is called from TraceStorage::finalize of the Zarr backends "
+                      "and nowhere else. While the run goes on the event arrays keep their full extent; shrinking the published shape earlier (from inspect, say) "
+                      "hides every event flushed after that point from a reader of the store until the run is finalised")
+    n = 0
+    for b in sorted(F.bodies.values(), key=lambda x: x.path):
+        for bb, t in b.calls():
+            if t["callee"].get("name") != "set_shape":
+                continue
+            n += 1
+            key = "%s:set_shape" % b.path
+            site = "%s @%s" % (b.path, loc(t["span"]))
+            root = b.path.split("::{closure")[0]
+            if root.endswith("::finalize") or "TraceStorage>::finalize" in root:
+                R.ok("C15-R11", key, site, "array resized in finalize")
+            else:
+                R.bad("C15-R11", key, site, "set_shape outside TraceStorage::finalize: the published extent of a stored array changes while chains still write to it")
+    R.floor("C15-R11", 4 if "zarr" in str(feats_of(F)) else 0)
+
+
+def feats_of(F):
+    return (F.crates and [c for c in F.crates if c["name"] == "nuts_rs"][0]["features"]) or []
+
 def run(F, R, config=None):
     feats = C10.features(F)
     if "zarr" not in feats:
@@ -684,6 +708,7 @@ def run(F, R, config=None):
     r5(F, R)
     r6(F, R)
     r9(F, R)
+    r11(F, R)
     # a chunk write whose failure is dropped leaves fill values where recorded draws should be (C13-R6 analysis restricted to the backends)
     from . import c13
 
